@@ -10,6 +10,7 @@ import (
 func init() {
 	vRegister("H04_persist", H04_persist)
 	vRegister("K7_footer", K7_footer)
+	vRegister("H04_manyfields", H04_manyfields)
 }
 
 var vLongTerm = func() string {
@@ -152,4 +153,48 @@ func K7_footer() {
 	want := vCRCFrom(crc, ft[:48])
 	vAssert(binary.BigEndian.Uint32(ft[48:52]) == want, "crc")
 	vAssert(w.Count() == 2+FooterSize, "count")
+}
+
+// H04_manyfields: segments with 127, 128 and 129 fields (the field count, the per-field table and field ids in
+// stored records and locations cross one-byte varint boundaries): persisted, re-opened, compared.
+func H04_manyfields() {
+	nF := []int{127, 128, 129}[vChoice("nFields", 3)]
+	var fields []gField
+	for i := 0; i < nF-1; i++ { // (_id is a field as well)
+		name := "f" + string([]byte{byte('0' + i/100), byte('0' + (i/10)%10), byte('0' + i%10)})
+		gf := gField{name: name, terms: []string{"a"}, fixFreq: true}
+		if i == nF-2 || i == 0 {
+			// the first and the last field carry everything: term vectors, doc values, stored values
+			gf = gField{name: name, terms: []string{"a", "b"}, tv: true, maxLocs: 1, fixLocs: true, dv: true, store: true, fixFreq: true}
+		}
+		fields = append(fields, gf)
+	}
+	docs, sp := vGenBatchFixed(gCfg{prefix: "", idBase: "d", nDocs: 2, wide: -1, noFx: true, fields: fields})
+	var z ZapPlugin
+	seg, _, err := z.newWithChunkMode(docs, DefaultChunkMode)
+	vAssert(err == nil, "build")
+	sb := seg.(*SegmentBase)
+	path := vP("many.zap")
+	vAssert(sb.Persist(path) == nil, "persist")
+	file := vFSBytes(path)
+	var wb bytes.Buffer
+	n, err := sb.WriteTo(&wb)
+	vAssert(err == nil && int(n) == len(file), "writeto-n")
+	vAssert(vBytesEq(wb.Bytes(), file), "writeto-bytes")
+	osegI, err := z.Open(path)
+	vAssert(err == nil, "open")
+	oseg := osegI.(*Segment)
+	vAssert(oseg.NumDocs() == 2 && oseg.Version() == 16, "seg-footer")
+	sbStateEq(sb, &oseg.SegmentBase, "state-")
+	sCheckStored(oseg, sp, "o-")
+	// postings of the fields around the boundary and of the rich ones
+	for _, fi := range []int{0, 1, nF / 2, nF - 3, nF - 2} {
+		name := fields[fi].name
+		one := &sSpec{docs: sp.docs, fields: sp.fields, posts: []*sFieldPost{sp.fieldPost(name)}}
+		sCheckPostings(oseg, one, "o-")
+		sCheckPostings(seg, one, "m-")
+	}
+	sCheckDocValues(oseg, sp, []int{1, 0}, "o-")
+	lCheckAgainstSpec(file, &sSpec{docs: sp.docs, fields: sp.fields, posts: []*sFieldPost{sp.fieldPost(fields[0].name), sp.fieldPost(fields[nF-2].name)}}, DefaultChunkMode, "l-")
+	vAssert(oseg.Close() == nil, "close")
 }
